@@ -134,9 +134,6 @@ func (ld *Layerdefs) ProbeAllLayerstate(inuse fs.InUseLayerMap) error {
 		return err
 	}
 	for _, layer := range ld.Layers() {
-		if layer.State == Layerstate_error {
-			continue
-		}
 		name := layer.Name
 		buildroot := ld.buildPath(layer)
 
@@ -159,6 +156,9 @@ func (ld *Layerdefs) ProbeAllLayerstate(inuse fs.InUseLayerMap) error {
 		}
 		layer.Mounts = ld.mounts.GetMountAndSubmounts(buildroot)
 
+		if layer.State == Layerstate_error {
+			continue
+		}
 		if !fs.IsDir(buildroot) {
 			layer.State = Layerstate_incomplete
 			continue
